@@ -216,18 +216,21 @@ def C15(tier):
 
 
 def C17(tier):
-    N = 3 if tier == 'quick' else 5
-    combos = [(8, 8, 8, 8, 1), (16, 8, 16, 8, 2)] if tier == 'quick' else [(8, 8, 8, 8, 1), (16, 8, 16, 8, 2), (8, 16, 8, 16, 1), (16, 16, 16, 16, 2)]
-    jobs = [ajob('cjm.n%d.st%d_%d_%d_%d_%d' % ((N,) + c), 'harness/C17_cjm.c', ['-DNMAX=%d' % N, '-DST_ARG=%d' % c[0], '-DST_RES=%d' % c[1], '-DST_ID=%d' % c[2], '-DST_FN=%d' % c[3], '-DST_AT=%d' % c[4]],
-                 unwind=2 * N + 5, timeout=6000, mem_gb=16, replace_calls=['myth_create_ex_body:stub_create', 'myth_join_body:stub_join'],
-                 bounds=dict(n='symbolic in [0,%d]' % N, strides='arg/result/id/func strides %s bytes, attr stride %d x sizeof(attr) (fixed per job); ids/results/attrs NULL or not and many/various variant symbolic' % (c[:4], c[4])))
-            for c in combos]
+    N = 4 if tier == 'quick' else 6
+    jobs = [ajob('cjm.n%d' % N, 'harness/C17_cjm.c', ['-DNMAX=%d' % N], unwind=2 * N + 6, timeout=6000, mem_gb=12,
+                 replace_calls=['myth_create_ex_body:stub_create', 'myth_join_body:stub_join'], extra=['--unwindset', 'myth_create_join_various_ex_aux:%d' % (N + 1), '--object-bits', '12'],
+                 cfg=dict(restrict_fp=['myth_create_join_various_ex_aux::1::1::func/f0,f1,f2,f3,f4']),
+                 bounds=dict(n='symbolic in [0,%d]' % N, symbolic='arg/result/id/func strides in {8,16} bytes, attr stride {1,2} x sizeof(attr), ids/results/attrs NULL or not, many vs various variant',
+                             function_pointers='the per-item function pointer is restricted to the harness functions f0..f4 (goto-instrument --restrict-function-pointer-by-name); without it the helper itself is a candidate target and the query explodes'))]
     PLAIN = 'function(sroa,early-cse,simplifycfg,lowerswitch),globaldce'
+    AUX = 'F__ZN4mtbb16parallel_for_auxIl4BodyEET0_T_S3_S3_S3_RKS2_'
     names = ['parallel_for', 'parallel_for_step', 'task_group']
-    for i in range(3):
-        jobs.append(Job('mtbb.%s' % names[i], 'B', src='harness/C17_mtbb.cc', lang='c++', defs=['-DSCEN=%d' % i, '-DTASK_MEMORY_CHUNK_SZ=64', '-DTASK_GROUP_INIT_SZ=2'], cbmc=(['--unwind', '12'] if i == 2 else ['--unwind', '6', '--unwindset', 'F_verif_main.0:16,F_verif_main.1:16,F_verif_main.2:16']) + ['--object-bits', '12'], timeout=3000, mem_gb=14,
+    variants = [(0, [], 'parallel_for'), (2, ['-DKTASKS=3'], 'task_group.k3'), (2, ['-DKTASKS=5'], 'task_group.k5')] if tier == 'quick' else [(0, [], 'parallel_for'), (1, [], 'parallel_for_step'), (2, ['-DKTASKS=3'], 'task_group.k3'), (2, ['-DKTASKS=5'], 'task_group.k5'), (2, ['-DKTASKS=0'], 'task_group.k0')]
+    for i, extra_defs, nm in variants:
+        jobs.append(Job('mtbb.%s' % nm, 'B', src='harness/C17_mtbb.cc', lang='c++', defs=['-DSCEN=%d' % i, '-DTASK_MEMORY_CHUNK_SZ=64', '-DTASK_GROUP_INIT_SZ=2'] + extra_defs,
+                        cbmc=['--unwind', '16'] + (['--unwindset', AUX + ':5'] if i < 2 else []) + ['--object-bits', '12'], timeout=7200, mem_gb=24,
                         cfg=dict(threads=[], plain=['verif_main'], opt_pipe=PLAIN, opts={}, havoc_ok=['__cxa_pure_virtual']),
-                        bounds=dict(indices='first,last symbolic in [-2,6], at most 4 indices in the range, step in [1,3]; task_group: 0..5 run() calls; header knobs TASK_MEMORY_CHUNK_SZ=64, TASK_GROUP_INIT_SZ=2 (inline capacity 2, so the overflow paths are reached early)', unwind='6 (recursion) / 12 (task_group loops)')))
+                        bounds=dict(indices='first,last symbolic in [-2,6], at most 3 indices in the range, step in [1,3]; task_group: 0, 3 or 5 run() calls (fixed per query) + reuse after wait; header knobs TASK_MEMORY_CHUNK_SZ=64, TASK_GROUP_INIT_SZ=2 (inline capacity 2, so the overflow paths are reached early)', unwind='16 loops / 5 recursion')))
     return dict(jobs=jobs, assumptions=A_ASSUME + ['myth_create_ex_body / myth_create is replaced by "run the child to completion now", myth_join by a no-op (the concurrent create/join protocol is C01)',
                                                  'C++ units verified: src/mtbb/task_group.h and src/mtbb/parallel_for.h as instantiated by harness/C17_mtbb.cc (clang++ -std=c++11 -fno-exceptions IR -> irseq plain mode -> cbmc); operator new/delete = malloc/free'],
                 functions=['myth_create_join_various_ex_body', 'myth_create_join_many_ex_body', 'myth_create_join_various_ex_aux', 'mtbb::parallel_for (2 index forms)', 'mtbb::parallel_for_aux', 'mtbb::task_group_no_prof::run/run_task/wait', 'mtbb::task_list', 'mtbb::task_memory_allocator'])
@@ -322,22 +325,28 @@ RICH_ASSUME = MODEL_ASSUMPTIONS[:2] + [
     'call sites of free_myth_thread_struct_stack/_desc are redirected (IR level) to harness wrappers that check the ownership ledger and then call the real function']
 def cj(name, create, finish, reap, nchild, rounds, timeout=2400, mem=12, preempt='sync'):
     threads = ['t0', 't1'] + (['t2'] if nchild > 1 else [])
+    trap = ['myth_init_ex_body', 'getenv', 'atoi', 'myth_get_n_available_cpus', 'real_free', 'real_malloc']
+    delete = list(SYNC_DELETE)
+    if create != 1:
+        # default-size stacks only: the size-class allocator is unreachable; a call to it is reported instead of being explored with a symbolic
+        # class index (which made every merge re-assign all 4x31 free-list heads: 21 M variables)
+        trap += ['myth_flmalloc', 'myth_flfree']; delete += ['myth_flmalloc', 'myth_flfree']
     return bjob(name, 'harness/C01_create_join.c', threads, rounds, ['-DCREATE=%d' % create, '-DFINISH=%d' % finish, '-DREAP=%d' % reap, '-DNCHILD=%d' % nchild],
-                preempt=preempt, timeout=timeout, mem_gb=mem, extra_cfg=dict(wrap=['free_myth_thread_struct_stack', 'free_myth_thread_struct_desc'], trap=['myth_init_ex_body', 'getenv', 'atoi', 'myth_get_n_available_cpus', 'real_free', 'real_malloc']),
+                preempt=preempt, timeout=timeout, mem_gb=mem, delete=delete, extra_cfg=dict(wrap=['free_myth_thread_struct_stack', 'free_myth_thread_struct_desc'], trap=trap),
                 bounds=dict(create=['attr NULL', 'attr from attr_init', 'attr + parent-first', 'attr + detachstate'][create], finish=['return', 'exit routine from nested frame'][finish],
                             reap=['join', 'tryjoin x2 then join', 'detach', 'none (attribute)'][reap], children=nchild))
 def C01(tier):
-    jobs = [cj('cj.null.ret.join.r3', 0, 0, 0, 1, 3), cj('cj.attr.exit.join.r3', 1, 1, 0, 1, 3), cj('cj.parentfirst.ret.join.r3', 2, 0, 0, 1, 3)]
+    jobs = [cj('cj.null.ret.join.r2', 0, 0, 0, 1, 2), cj('cj.null.exit.join.r2', 0, 1, 0, 1, 2), cj('cj.parentfirst.ret.join.r2', 2, 0, 0, 1, 2)]
     if tier == 'thorough':
-        jobs += [cj('cj.null.ret.join.r4', 0, 0, 0, 1, 4, timeout=14000, mem=16), cj('cj.attr.exit.join.r4', 1, 1, 0, 1, 4, timeout=14000, mem=16), cj('cj.parentfirst.exit.join.r4', 2, 1, 0, 1, 4, timeout=14000, mem=16),
+        jobs += [cj('cj.null.ret.join.r3', 0, 0, 0, 1, 3, timeout=14000, mem=16), cj('cj.null.ret.join.r4', 0, 0, 0, 1, 4, timeout=14000, mem=16), cj('cj.attr.exit.join.r2', 1, 1, 0, 1, 2, timeout=14000, mem=30), cj('cj.parentfirst.exit.join.r4', 2, 1, 0, 1, 4, timeout=14000, mem=16),
                  cj('cj.null.exit.join.2children.r3', 0, 1, 0, 2, 3, timeout=14000, mem=20), cj('cj.null.ret.join.r3.all', 0, 0, 0, 1, 3, timeout=14000, mem=20, preempt='all')]
     return dict(jobs=jobs, assumptions=RICH_ASSUME,
                 functions=['myth_create_ex_body', 'myth_create_1', 'myth_entry_point', 'myth_entry_point_cleanup', 'myth_entry_point_1', 'myth_entry_point_2', 'myth_exit_body', 'myth_join_body', 'myth_join_1', 'myth_join_2', 'myth_join_3',
                            'myth_thread_attr_init_body', 'init_myth_thread_struct', 'get_new_myth_thread_struct_desc', 'get_new_myth_thread_struct_stack', 'free_myth_thread_struct_desc', 'free_myth_thread_struct_stack', 'myth_tls_tree_init', 'myth_tls_tree_fini'])
 def C13(tier):
-    jobs = [cj('reap.tryjoin.r3', 0, 0, 1, 1, 3), cj('reap.detach.r3', 0, 0, 2, 1, 3), cj('reap.attr_detached.r3', 3, 0, 3, 1, 3)]
+    jobs = [cj('reap.tryjoin.r2', 0, 0, 1, 1, 2), cj('reap.detach.r2', 0, 0, 2, 1, 2), cj('reap.attr_detached.r2', 3, 0, 3, 1, 2)]
     if tier == 'thorough':
-        jobs += [cj('reap.tryjoin.r4', 0, 0, 1, 1, 4, timeout=14000, mem=16), cj('reap.detach.r4', 0, 0, 2, 1, 4, timeout=14000, mem=16), cj('reap.attr_detached.r4', 3, 0, 3, 1, 4, timeout=14000, mem=16),
+        jobs += [cj('reap.tryjoin.r3', 0, 0, 1, 1, 3, timeout=14000, mem=16), cj('reap.detach.r3', 0, 0, 2, 1, 3, timeout=14000, mem=16), cj('reap.tryjoin.r4', 0, 0, 1, 1, 4, timeout=14000, mem=16), cj('reap.detach.r4', 0, 0, 2, 1, 4, timeout=14000, mem=16), cj('reap.attr_detached.r4', 3, 0, 3, 1, 4, timeout=14000, mem=16),
                  cj('reap.detach.exit.parentfirst.r4', 2, 1, 2, 1, 4, timeout=14000, mem=16), cj('reap.detach.r3.all', 0, 0, 2, 1, 3, timeout=14000, mem=20, preempt='all')]
     return dict(jobs=jobs, assumptions=RICH_ASSUME,
                 functions=['myth_tryjoin_body', 'myth_detach_body', 'myth_join_body', 'myth_create_ex_body', 'myth_entry_point_cleanup', 'myth_entry_point_1', 'myth_entry_point_2', 'free_myth_thread_struct_desc', 'free_myth_thread_struct_stack'])
